@@ -85,7 +85,12 @@ class Arrays:
                         sl[ax] = int(i) + 1
                         a[tuple(sl)] = -np.take(src, j, axis=ax)
             return a
-        return r.standard_normal(shape) * self.level
+        a = r.standard_normal(shape) * self.level
+        if len(shape) >= 3 and shape[0] >= 2 and r.random() < 0.3:
+            # identically-zero components / planes (axis-aligned vector fields): a skipped output shows as a surviving sentinel
+            k = r.permutation(shape[0])[: int(r.integers(1, shape[0]))]
+            a[k] = 0.0
+        return a
 
     # -- roles ----------------------------------------------------------------------------------------
     def inp(self, shape, kind="noise"):
